@@ -174,14 +174,14 @@ def _try(world, acts, side, op):
 MACROS = ("takeover", "safe_save", "swap", "move_and_edit", "ephemeral", "takeover_keep", "deep_create_then_rename")
 
 
-def emit_macro(d, world, acts, side):
+def emit_macro(d, world, acts, side, kinds=None):
     """Idioms real applications produce: several ops on related names with no engine step in between
     (name takeover, save-via-temp-file, swap, move+edit, create+delete).  Every op still passes the hazard
     predicates; a macro whose next op is rejected simply stops there.  Returns number of ops emitted."""
     tree = world.side[side]
     files = tree.files()
     news = world.new_paths(side)
-    kind = d.choice(MACROS)
+    kind = d.choice(kinds or MACROS)
     n0 = len(acts)
     if kind in ("takeover", "takeover_keep") and len(files) >= 2 and news:
         recent = [f for f in getattr(world, "recent", []) if f in files]
@@ -245,11 +245,12 @@ def emit_starve(d, world, acts, side):
     intake only) -- the engine works from half the story plus whatever it polls itself.  Returns ops emitted."""
     n0 = len([a for a in acts if a[0] == "u"])
     for _ in range(d.int(1, 2)):
-        emit_user_op(d, world, acts, side)
+        emit_user_op(d, world, acts, side, kinds=(("write", 6), ("create", 3), ("rename_file", 2), ("mkdir", 1)))
     acts.append(step_act(d, world, "EL" if side == 0 else "ER"))
     for _ in range(d.int(1, 3)):
         if d.chance(1, 2):
-            emit_macro(d, world, acts, side)
+            # (name take-overs and moves of the object the engine has just been told about)
+            emit_macro(d, world, acts, side, kinds=("takeover_keep", "takeover_keep", "takeover", "move_and_edit", "swap"))
         else:
             emit_user_op(d, world, acts, side)
     other = "ER" if side == 0 else "EL"
